@@ -431,3 +431,111 @@ func hasTerminal(b *gen.Block) bool {
 	}
 	return false
 }
+
+// ---------------------------------------------------------------------------
+// TestC12MultiStart: a sub-process with several start events (all of them fire
+// on activation). Branches differ in length - one ends at once, others wait for
+// a task - so the parent may only continue after the LAST inner token is gone.
+
+type msDesc struct {
+	Branches []int  `json:"branches"` // per inner start event: number of tasks before its end event (0 = straight to end)
+	Nest     bool   `json:"nest"`     // the sub-process sits inside a parallel branch of the parent
+	Perturb  uint64 `json:"perturb"`
+	Schedule []int  `json:"schedule"`
+}
+
+func buildMS(d msDesc) *gen.Graph {
+	b := gen.NewB()
+	st := b.Add(gen.KStart)
+	sub := b.Add(gen.KSub)
+	ib := b.Sub()
+	sub.Inner = ib.G
+	for _, n := range d.Branches {
+		s := ib.Add(gen.KStart)
+		cur := s
+		for k := 0; k < n; k++ {
+			t := ib.Add(gen.KTask)
+			ib.Connect(cur, t)
+			cur = t
+		}
+		e := ib.Add(gen.KEnd)
+		ib.Connect(cur, e)
+	}
+	after := b.Add(gen.KTask)
+	en := b.Add(gen.KEnd)
+	if d.Nest {
+		f := b.Add(gen.KPar)
+		j := b.Add(gen.KPar)
+		side := b.Add(gen.KTask)
+		b.Connect(st, f)
+		b.Connect(f, sub)
+		b.Connect(f, side)
+		b.Connect(sub, j)
+		b.Connect(side, j)
+		b.Connect(j, after)
+	} else {
+		b.Connect(st, sub)
+		b.Connect(sub, after)
+	}
+	b.Connect(after, en)
+	return b.G
+}
+
+func TestC12MultiStart(t *testing.T) {
+	var rd msDesc
+	if ok, err := rec.ReplayInput(&rd); ok {
+		if err != nil {
+			t.Fatal(err)
+		}
+		if rd.Branches == nil {
+			return
+		}
+		fails := 0
+		for i := 0; i < 30; i++ {
+			c := &drive.Case{Graph: buildMS(rd), Lang: "expr", Schedule: rd.Schedule, Perturb: rd.Perturb}
+			if out := drive.RunLockstep(c, nil, nil); out.Symptom != "" {
+				fails++
+				if fails == 1 {
+					fmt.Printf("REPRODUCED %s: %s\n", out.Symptom, out.Detail)
+				}
+			}
+		}
+		if fails > 0 {
+			t.Fatalf("reproduced in %d of 30 runs", fails)
+		}
+		return
+	}
+	rapid.Check(t, func(rt *rapid.T) {
+		d := msDesc{Nest: rapid.Bool().Draw(rt, "nest"), Perturb: uint64(rapid.IntRange(0, 400).Draw(rt, "perturb"))}
+		n := rapid.IntRange(2, 3).Draw(rt, "starts")
+		for i := 0; i < n; i++ {
+			d.Branches = append(d.Branches, rapid.IntRange(0, 2).Draw(rt, "len"))
+		}
+		c := &drive.Case{Graph: buildMS(d), Lang: "expr", Perturb: d.Perturb}
+		pick := func(k int) int {
+			v := rapid.IntRange(0, k-1).Draw(rt, "pick")
+			d.Schedule = append(d.Schedule, v)
+			return v
+		}
+		hash := rec.Hash(d)
+		rec.Begin("TestC12MultiStart", hash, d)
+		out := drive.RunLockstep(c, pick, nil)
+		if out.Inconcl != "" {
+			rec.End(hash, "inconclusive")
+			rec.Inconclusive("TestC12MultiStart", out.Inconcl)
+			rt.Fatalf("inconclusive: %s", out.Inconcl)
+		}
+		rec.End(hash, out.Symptom)
+		mixed := false
+		for _, x := range d.Branches {
+			if x != d.Branches[0] {
+				mixed = true
+			}
+		}
+		rec.Case("TestC12MultiStart", hash, mixed, []string{"multiStartSubProcess"}, map[string]any{"case": d, "steps": out.Steps})
+		if out.Symptom != "" {
+			rt.Fatalf("%s", rec.Fail(rec.Failure{Property: prop, Test: "TestC12MultiStart", Symptom: out.Symptom, Detail: out.Detail, Descriptor: d,
+				History: map[string]any{"steps": out.Steps, "traces": out.Traces, "xml": out.Program.XML()}, Goroutines: out.Gs}))
+		}
+	})
+}
